@@ -440,6 +440,12 @@ class C05(PropOracle):
         if w.data.get("faulty"):
             return
         if not new_sbatch and o.completions == c0 and not (o.cluster or {}).get("is_complete"):
+            c = read_json(w.rootp + "cluster_config.json") or {}
+            busy = any(v.status == "ready" and v is not vp and v.pending is not None and v.pending.kind != "start" for v in w.vprocs)
+            if c.get("submitter") is not None and busy:
+                # refused because another live process (e.g. the try-submit-jobs started by a user's show-status while this
+                # round was starting) holds the submitter role: that process is the "one try-submit-jobs" of the statement
+                return
             self.v(w, f"recovery round {d['n']} of {vp.name} (exit {d['code']}) neither submitted a "
                       f"batch nor completed the submission", "recovery-no-progress")
 
